@@ -1,9 +1,14 @@
 #!/bin/sh
 # MANIFEST.setup_cmd: offline build of the whole Coq development from files on disk.
-set -e
-cd "$(dirname "$0")"
+# A file that does not compile does not stop the build (make -k): every check re-runs make for its own
+# target and reports a broken obligation itself, so one broken proof cannot mask the other properties.
+cd "$(dirname "$0")" || exit 1
 mkdir -p build evidence replays coq/Gen
-PYTHONPATH=/repo:$PWD/harness/shims:$PWD/harness SYMPY_GROUND_TYPES=python PYTHONHASHSEED=0 /venv/bin/python harness/py2coq.py /repo
-/venv/bin/python tools/mkproject.py
-timeout 3000 make -C coq -j16 > build/setup_make.log 2>&1 || { tail -60 build/setup_make.log; exit 1; }
-tail -3 build/setup_make.log
+PYTHONPATH=/repo:$PWD/harness/shims:$PWD/harness SYMPY_GROUND_TYPES=python PYTHONHASHSEED=0 /venv/bin/python harness/py2coq.py /repo || exit 1
+/venv/bin/python tools/mkproject.py || exit 1
+if timeout 3300 make -k -C coq -j16 > build/setup_make.log 2>&1; then
+  echo "setup: coq build ok"; tail -2 build/setup_make.log
+else
+  echo "setup: coq build had errors (checks will report them per property):"; grep -B2 -A8 "^Error" build/setup_make.log | tail -40
+fi
+exit 0
